@@ -65,6 +65,12 @@ def sound(word: str) -> bool:
     pre: len(word) <= N
     post: _
     """
+    return _sound(word)
+
+
+def _sound(word):
+    # body of `sound` without a contract of its own: CrossHair assumes the contracts of CALLED functions, so a
+    # contract function that delegates to another contract function would silently drop the callee's failures
     exclude_known("sound", word=word, SPEC=SPEC)
     try:
         ts = bounded_forest(G, word, START, ParsingMode.COMPLETE, BUDGET)
@@ -91,6 +97,12 @@ def complete(word: str) -> bool:
     pre: len(word) <= N
     post: _
     """
+    return _complete(word)
+
+
+def _complete(word):
+    # body of `complete` without a contract of its own: CrossHair assumes the contracts of CALLED functions, so a
+    # contract function that delegates to another contract function would silently drop the callee's failures
     exclude_known("complete", word=word, SPEC=SPEC)
     try:
         ts = bounded_forest(G, word, START, ParsingMode.COMPLETE, BUDGET)
@@ -104,6 +116,12 @@ def reach(word: str) -> bool:
     pre: len(word) <= N
     post: _
     """
+    return _reach(word)
+
+
+def _reach(word):
+    # body of `reach` without a contract of its own: CrossHair assumes the contracts of CALLED functions, so a
+    # contract function that delegates to another contract function would silently drop the callee's failures
     # twin: "no word of maximal length parses" must be refuted
     try:
         ts = bounded_forest(G, word, START, ParsingMode.COMPLETE, BUDGET)
@@ -120,6 +138,12 @@ def terminates(word: str) -> bool:
     pre: len(word) <= N
     post: _
     """
+    return _terminates(word)
+
+
+def _terminates(word):
+    # body of `terminates` without a contract of its own: CrossHair assumes the contracts of CALLED functions, so a
+    # contract function that delegates to another contract function would silently drop the callee's failures
     exclude_known("terminates", word=word, SPEC=SPEC)
     try:
         bounded_forest(G, word, START, MODE, BUDGET)
@@ -167,7 +191,7 @@ def sound_fa(word: str) -> bool:
     pre: len(word) <= N and all(c in ALPHA for c in word)
     post: _
     """
-    return sound(concretise(word))
+    return _sound(concretise(word))
 
 
 def complete_fa(word: str) -> bool:
@@ -176,7 +200,7 @@ def complete_fa(word: str) -> bool:
     post: _
     """
     exclude_known("complete_fa", word=word, SPEC=SPEC)
-    return complete(concretise(word))
+    return _complete(concretise(word))
 
 
 def terminates_fa(word: str) -> bool:
@@ -184,7 +208,7 @@ def terminates_fa(word: str) -> bool:
     pre: len(word) <= N and all(c in ALPHA for c in word)
     post: _
     """
-    return terminates(concretise(word))
+    return _terminates(concretise(word))
 
 
 def reach_fa(word: str) -> bool:
@@ -192,7 +216,7 @@ def reach_fa(word: str) -> bool:
     pre: len(word) <= N and all(c in ALPHA for c in word)
     post: _
     """
-    return reach(concretise(word))
+    return _reach(concretise(word))
 
 
 # ------------------------------------------------------------------------------------------------
